@@ -155,4 +155,11 @@ var props = map[string]*propCfg{
 		Quick:       []legCfg{mc("compose", "MC_C07", "C07_quick.cfg", 10*time.Minute)},
 		Thorough:    []legCfg{mc("compose", "MC_C07", "C07_thorough.cfg", 40*time.Minute)},
 	},
+	"C08": {
+		ID: "C08", Level: "model_checking", Exhaustive: true,
+		Rule:        "TLC enumerates documents {m: array of arrays}: depth 2 with 1..MaxOuter inner arrays of 0..MaxLeaf rows each (ragged, empty inner arrays) and depth 3 (arrays of arrays of 0-1-row arrays), rows from LeafVals values, x 4 WHERE predicates x 4 select lists (star, column, a+1 AS b which would reveal a second projection, alias + missing column) x {FROM m, FROM mix=>m}. The invariants state the nested result as 'the flat query inside every innermost array' and the mix=> result as the concatenation. Each case is replayed: nested result = exported; the flat query is run for real on every innermost array alone and compared with the corresponding part; mix=> = concatenation of those runs. Non-trivial: at least two innermost arrays and a non-empty overall result; distinct = distinct (document, query).",
+		Assumptions: baseAssumptions,
+		Quick:       []legCfg{mc("nested", "MC_C08", "C08_quick.cfg", 10*time.Minute)},
+		Thorough:    []legCfg{mc("nested", "MC_C08", "C08_thorough.cfg", 40*time.Minute)},
+	},
 }
